@@ -766,3 +766,92 @@ package gojq
 //@   requires controls == ctl(src, len(src))
 //@   loop 1 invariant 0 <= i && i <= len(src) && j == (quote ? 1 : 0) + i + 5 * ctl(src, i) && len(buf) == len(src) + 5 * ctl(src, len(src)) + (quote ? 2 : 0)
 //@   ensures len(buf) == len(src) + 5 * controls + (quote ? 2 : 0)
+
+// ---------------------------------------------------------------------------------------
+// C01 / C20: the scope stack (scope_stack.go) has the same representation invariant and the same
+// operations as the value stack; popscope (execute.go) releases the variable slots of the popped
+// scope exactly when the scope lies above the fork limit, i.e. no pending fork can return to it.
+// ---------------------------------------------------------------------------------------
+
+//@ invariant-of (s *scopeStack) -1 <= s.index && s.index < len(s.data) && -1 <= s.limit && s.limit < len(s.data)
+//@ invariant-of (s *scopeStack) forall k :: {s.data[k]} 0 <= k && k < len(s.data) ==> -1 <= s.data[k].next && s.data[k].next < k
+
+//@ func newScopeStack() (s *scopeStack)
+//@   property C01
+//@   ensures s != nil && fresh(s) && s.index == -1 && s.limit == -1 && len(s.data) == 0
+
+//@ func (s *scopeStack) push(v scope)
+//@   property C01 C20
+//@   modifies s.index, s.data, elems(s.data)
+//@   ensures s.limit == old(s.limit)
+//@   ensures s.index == max(old(s.index), old(s.limit)) + 1
+//@   ensures s.data[s.index].value == v && s.data[s.index].next == old(s.index)
+//@   ensures len(s.data) >= old(len(s.data))
+//@   ensures forall k :: {s.data[k]} 0 <= k && k < old(len(s.data)) && k != s.index ==> s.data[k] == old(s.data[k])
+//@   property C20
+//@   ensures len(s.data) <= max(old(len(s.data)), max(old(s.index), old(s.limit)) + 2)
+
+//@ func (s *scopeStack) pop() (v scope)
+//@   property C01
+//@   requires s.index >= 0
+//@   modifies s.index
+//@   ensures v == old(s.data[s.index].value) && s.index == old(s.data[s.index].next)
+
+//@ func (s *scopeStack) empty() (b bool)
+//@   property C01
+//@   ensures b == (s.index < 0)
+
+//@ func (s *scopeStack) save() (index, limit int)
+//@   property C01
+//@   modifies s.limit
+//@   ensures index == old(s.index) && limit == old(s.limit)
+//@   ensures s.limit == max(old(s.index), old(s.limit))
+
+//@ func (s *scopeStack) restore(index, limit int)
+//@   property C01
+//@   requires -1 <= index && index < len(s.data) && -1 <= limit && limit < len(s.data)
+//@   modifies s.index, s.limit
+//@   ensures s.index == index && s.limit == limit
+
+//@ func (env *env) popscope() (pc int, saveindex int)
+//@   property C01 C20
+//@   requires env.scopes != nil && env.scopes.index >= 0 && inv(env.scopes)
+//@   modifies env.offset, env.scopes.index
+//@   ensures inv(env.scopes)
+//@   ensures pc == old(env.scopes.data[env.scopes.index].value.pc) && saveindex == old(env.scopes.data[env.scopes.index].value.saveindex)
+//@   ensures env.scopes.index == old(env.scopes.data[env.scopes.index].next)
+//@   ensures old(env.scopes.index) > old(env.scopes.limit) ==> env.offset == old(env.scopes.data[env.scopes.index].value.offset)
+//@   ensures old(env.scopes.index) <= old(env.scopes.limit) ==> env.offset == old(env.offset)
+
+// C01: forks. pushfork records the current position of the three persistent stacks and protects
+// everything below it (save raises the limits); popfork puts exactly the recorded state back, so an
+// alternative resumes in the state its sibling started from. wfEnv: the three stacks exist and satisfy
+// their representation invariants. forkOK: the positions recorded in a fork lie within the stacks.
+//@ pred wfEnv(e *env) = e.stack != nil && e.paths != nil && e.scopes != nil && e.stack != e.paths && inv(e.stack) && inv(e.paths) && inv(e.scopes)
+//@ pred forkOK(e *env, f fork) = -1 <= f.stackindex && f.stackindex < len(e.stack.data) && -1 <= f.stacklimit && f.stacklimit < len(e.stack.data) && -1 <= f.scopeindex && f.scopeindex < len(e.scopes.data) && -1 <= f.scopelimit && f.scopelimit < len(e.scopes.data) && -1 <= f.pathindex && f.pathindex < len(e.paths.data) && -1 <= f.pathlimit && f.pathlimit < len(e.paths.data)
+
+//@ func (env *env) pushfork(pc int)
+//@   property C01
+//@   requires wfEnv(env)
+//@   modifies env.forks, elems(env.forks), env.stack.limit, env.scopes.limit, env.paths.limit
+//@   ensures wfEnv(env)
+//@   ensures len(env.forks) == old(len(env.forks)) + 1
+//@   ensures env.forks[len(env.forks)-1].pc == pc && env.forks[len(env.forks)-1].offset == env.offset && env.forks[len(env.forks)-1].expdepth == env.expdepth
+//@   ensures env.forks[len(env.forks)-1].stackindex == old(env.stack.index) && env.forks[len(env.forks)-1].stacklimit == old(env.stack.limit)
+//@   ensures env.forks[len(env.forks)-1].scopeindex == old(env.scopes.index) && env.forks[len(env.forks)-1].scopelimit == old(env.scopes.limit)
+//@   ensures env.forks[len(env.forks)-1].pathindex == old(env.paths.index) && env.forks[len(env.forks)-1].pathlimit == old(env.paths.limit)
+//@   ensures forkOK(env, env.forks[len(env.forks)-1])
+//@   ensures env.stack.limit == max(old(env.stack.index), old(env.stack.limit)) && env.scopes.limit == max(old(env.scopes.index), old(env.scopes.limit)) && env.paths.limit == max(old(env.paths.index), old(env.paths.limit))
+//@   ensures forall k :: {env.forks[k]} 0 <= k && k < old(len(env.forks)) ==> env.forks[k] == old(env.forks[k])
+
+//@ func (env *env) popfork() (pc int)
+//@   property C01
+//@   requires wfEnv(env) && len(env.forks) > 0 && forkOK(env, env.forks[len(env.forks)-1])
+//@   modifies env.forks, env.offset, env.expdepth, env.stack.index, env.stack.limit, env.scopes.index, env.scopes.limit, env.paths.index, env.paths.limit
+//@   ensures wfEnv(env)
+//@   ensures len(env.forks) == old(len(env.forks)) - 1 && pc == old(env.forks[len(env.forks)-1].pc)
+//@   ensures env.offset == old(env.forks[len(env.forks)-1].offset) && env.expdepth == old(env.forks[len(env.forks)-1].expdepth)
+//@   ensures env.stack.index == old(env.forks[len(env.forks)-1].stackindex) && env.stack.limit == old(env.forks[len(env.forks)-1].stacklimit)
+//@   ensures env.scopes.index == old(env.forks[len(env.forks)-1].scopeindex) && env.scopes.limit == old(env.forks[len(env.forks)-1].scopelimit)
+//@   ensures env.paths.index == old(env.forks[len(env.forks)-1].pathindex) && env.paths.limit == old(env.forks[len(env.forks)-1].pathlimit)
+//@   ensures forall k :: {env.forks[k]} 0 <= k && k < len(env.forks) ==> env.forks[k] == old(env.forks[k])
